@@ -259,6 +259,47 @@ def rule_guess_edition(ctx: Ctx, rule="R-C18-4"):
            "every path that makes no guess has established that there is not exactly one candidate" if ok_complete else why, node=fn, mod=m)
 
 
+def rule_includes_year(ctx: Ctx):
+    """R-C18-6: the year filter keeps an edition iff the year is not in the
+    future and lies between the edition's (optional) start and end years."""
+    repo = ctx.repo
+    m = repo.mod("models")
+    fn = repo.need_func("models.Edition.includes_year")
+    S, Y = fn.args.args[0].arg, fn.args.args[1].arg
+    rets = [r for r in walk_local(fn) if isinstance(r, ast.Return)]
+    ok, got = False, []
+    if len(rets) == 1 and isinstance(rets[0].value, ast.BoolOp) and isinstance(rets[0].value.op, ast.And):
+        got = [norm(v) for v in rets[0].value.values]
+        lower = {f"{S}.start is None or {S}.start.year <= {Y}", f"{S}.start is None or {Y} >= {S}.start.year"}
+        upper = {f"{S}.end is None or {S}.end.year >= {Y}", f"{S}.end is None or {Y} <= {S}.end.year"}
+        ok = len(got) == 3 and any(g in lower for g in got) and any(g in upper for g in got) and any(g.startswith(f"{Y} <= ") and "now().year" in g for g in got)
+    ctx.ob("R-C18-6", "models.Edition.includes_year/two-sided-and-none-safe", ok,
+           f"an edition publishes in a year iff year <= current year and start.year <= year <= end.year, with a missing start/end meaning unbounded (found {got})",
+           node=fn, mod=m)
+
+
+def rule_merge_dedup(ctx: Ctx, rule="R-C18-7"):
+    """two patterns that match the same characters contribute their editions to one token; an edition contributed twice must count once,
+    otherwise `len(candidates) == 1` fails for an unambiguous reporter."""
+    repo = ctx.repo
+    m = repo.mod("models")
+    fn = repo.need_func("models.CitationToken.merge")
+    S = fn.args.args[0].arg
+    for attr in ("exact_editions", "variation_editions"):
+        st = [s_ for s_ in stmts_local(fn.body) if isinstance(s_, ast.Assign) and norm(s_.targets[0]) == f"{S}.{attr}"]
+        last = max(st, key=lambda x: x.lineno) if st else None
+        ok = False
+        if last is not None:
+            v = last.value
+            inner = v.args[0] if isinstance(v, ast.Call) and dotted(v.func) in ("tuple", "list") and v.args else v
+            ok = isinstance(inner, ast.Call) and dotted(inner.func) in ("dict.fromkeys",) and norm(inner.args[0]) == f"{S}.{attr}"
+            concat = any(isinstance(x.value, ast.BinOp) and isinstance(x.value.op, ast.Add) for x in st)
+            ok = ok and concat
+        ctx.ob(rule, f"models.CitationToken.merge/{attr}:deduplicated", ok,
+               f"after concatenating the other token's {attr} the list is de-duplicated order-preservingly (dict.fromkeys): the same edition contributed by two "
+               f"patterns counts once (last assignment: `{norm(last)[:70] if last is not None else 'none'}`)", node=last or fn, mod=m)
+
+
 def rule_disambiguation(ctx: Ctx):
     repo = ctx.repo
     hm, fm = repo.mod("helpers"), repo.mod("find")
@@ -319,6 +360,8 @@ def run(ctx: Ctx):
     ctx.guard(rule_get_year, ctx, data)
     ctx.guard(rule_guess_edition, ctx)
     ctx.guard(rule_disambiguation, ctx)
+    ctx.guard(rule_includes_year, ctx)
+    ctx.guard(rule_merge_dedup, ctx)
     ctx.floor("R-C18-1", 5)
     ctx.floor("R-C18-2", 5)
     ctx.floor("R-C18-3", 5)
